@@ -407,8 +407,13 @@ def shadowing_cases(r, n):
         n_ = r.choice(["t1", "t2"]); N = plain[n_]
         b_ = r.choice(list(plain)); B = plain[b_]
         x, y, z = r.shuffle(["a", "b", "c"])
-        k = r.below(7)
-        if k == 0: s, w = "WITH %s AS (SELECT o.%s AS %s, o.%s AS k FROM %s o) SELECT %s, k FROM %s" % (n_, y, x, z, n_, x, n_), [(x, {N + (y,)}), ("k", {N + (z,)})]
+        k = r.below(10)
+        # a derived table whose ALIAS is the name of a visible WITH table (which it reads): outside the derived table the name is the derived table — the store looks
+        # derived tables up before WITH tables (seeded C16-12: the two lookups swapped)
+        if k == 7: s, w = "WITH w AS (SELECT %s, %s FROM %s) SELECT w.%s FROM (SELECT %s AS %s FROM w) w" % (x, y, n_, x, y, x), [(x, {N + (y,)})]
+        elif k == 8: s, w = "WITH w AS (SELECT %s, %s FROM %s) SELECT %s FROM (SELECT %s AS %s FROM w) w" % (x, y, n_, x, y, x), [(x, {N + (y,)})]
+        elif k == 9: s, w = ("WITH w AS (SELECT %s, %s FROM %s), v AS (SELECT %s FROM %s) SELECT w.%s, v.%s FROM (SELECT %s AS %s FROM w) w JOIN v ON 1 = 1" % (x, y, n_, z, b_, x, z, y, x)), [(x, {N + (y,)}), (z, {B + (z,)})]
+        elif k == 0: s, w = "WITH %s AS (SELECT o.%s AS %s, o.%s AS k FROM %s o) SELECT %s, k FROM %s" % (n_, y, x, z, n_, x, n_), [(x, {N + (y,)}), ("k", {N + (z,)})]
         elif k == 1: s, w = "SELECT %s.%s FROM (SELECT %s AS %s FROM %s) %s" % (n_, x, y, x, n_, n_), [(x, {N + (y,)})]
         elif k == 2: s, w = ("SELECT p.%s, %s.k FROM (SELECT %s FROM %s) p JOIN (SELECT q.%s AS k FROM %s q) %s ON 1 = 1" % (x, n_, x, n_, y, b_, n_)), [(x, {N + (x,)}), ("k", {B + (y,)})]
         elif k == 3: s, w = "WITH %s AS (SELECT %s AS %s FROM %s) SELECT %s.%s FROM %s" % (n_, z, x, n_, n_, x, n_), [(x, {N + (z,)})]
